@@ -142,7 +142,12 @@ def tape_program(ops, strip_pauli_corrections=False):
         elif name == "GlobalPhase":
             prog.append(("phase", float(op.data[0])))
         elif name == "Identity":
-            continue
+            # The interpreter creates a qubit (in |0>) when an instruction first touches it. Identity used to be dropped here, so a
+            # logical wire whose only gates are Identities (documented: "leaves all Paulis and Identities as physical gates") never
+            # entered the register and the check reported "aux-wires-left ... live wires [], expected 1 logical wires" although the
+            # emitted pattern [I(w)] is exactly right. Identity now touches its wires (a wire-less Identity touches nothing).
+            if len(op.wires):
+                prog.append(("U", np.eye(2 ** len(op.wires), dtype=complex), list(op.wires)))
         else:
             prog.append(("U", gate_matrix(op), list(op.wires)))
     return prog
